@@ -8,6 +8,8 @@ CONSTANTS
   MakeModes <- BothBool
   MaxFaults = 2
   AsBuiltD8 = FALSE
+  SigOnMake <- SigSome
+  Hoisted = FALSE
   GenMode = TRUE
   GenLen = 14
 INVARIANTS GenPrint
